@@ -116,7 +116,7 @@ ExitGoals == {"Shutdown", "Fork"}
 Mutants  == {"none", "NoNotifyMakeRequest", "AddNoNotify", "LastWaits", "DecSkipped",
              "OpenAny", "FlagNeverCleared", "NoWakeAllOnOpen", "NoGoalClearOnExit",
              "SentinelKept", "NoDesignatedCheck", "DisabledBlocks", "OpenAllAtOnce",
-             "NoNotifyAllOnExit"}
+             "NoNotifyAllOnExit", "SentinelEager", "OpenBeforeStop"}
 
 ASSUME /\ N \in Nat \ {0} /\ NStages >= 4 /\ Mutant \in Mutants
        /\ SchedAdds \subseteq STW /\ SentinelStage \in {0} \cup SeqStages
@@ -155,6 +155,7 @@ VARIABLES
   panic,
   \* ---- history (hidden by VIEW in the large configs) ----
   nAdded, nStarted, nEnded,   \* packets added / started / ended since the last GC end
+  sentOK,                     \* every sentinel packet started with everything before it drained
   cbOK, openOK, endOK, prioOK
 
 wvars  == <<pc, cur, todo>>
@@ -166,7 +167,7 @@ gvars  == <<goal, requests>>
 mvars  == <<flag, world, mpc>>
 fvars  == <<creation, surr, vmpc>>
 bounds == <<spur, budget, mutAdds, reqCount, forkCount, finished>>
-cnt    == <<nAdded, nStarted, nEnded>>
+cnt    == <<nAdded, nStarted, nEnded, sentOK>>
 flags  == <<cbOK, openOK, endOK, prioOK>>
 vars   == <<wvars, lvars, qvars, bvars, parked, cvars, gvars, mvars, fvars, bounds, panic,
             cnt, flags>>
@@ -233,6 +234,12 @@ SchedTodo ==
 \* (scheduler.rs:655-668): clear_request, open FIRST_STW, notify_all - three separate steps
 \* without any lock - and the ScanVMSpecificRoots add into the now open bucket.
 StopTodo ==
+  IF Mutant = "OpenBeforeStop"          \* notify_mutators_paused before stop_all_mutators returned
+  THEN Flat([i \in 1..RootAdds |-> BAdd(FirstSTW, Pkt("Gen", FirstSTW, MaxDepth))])
+       \o << Op("clear", 0, NoPkt, FALSE), Op("openfirst", 0, NoPkt, FALSE), Op("nraw", 0, NoPkt, FALSE),
+             Op("stop", 0, NoPkt, FALSE) >>
+       \o BAdd(FirstSTW, Pkt("Gen", FirstSTW, 0))
+  ELSE
   << Op("stop", 0, NoPkt, FALSE) >>
   \o Flat([i \in 1..RootAdds |-> BAdd(FirstSTW, Pkt("Gen", FirstSTW, MaxDepth))])
   \o << Op("clear", 0, NoPkt, FALSE), Op("openfirst", 0, NoPkt, FALSE), Op("nraw", 0, NoPkt, FALSE) >>
@@ -372,7 +379,7 @@ Init ==
   /\ creation = "Spawned" /\ surr = {} /\ vmpc = <<"idle", "">>
   /\ spur = SpurBudget /\ budget = 0 /\ mutAdds = 0 /\ reqCount = 0 /\ forkCount = 0
   /\ finished = 0 /\ panic = "none"
-  /\ nAdded = 0 /\ nStarted = 0 /\ nEnded = 0
+  /\ nAdded = 0 /\ nStarted = 0 /\ nEnded = 0 /\ sentOK = TRUE
   /\ cbOK = TRUE /\ openOK = TRUE /\ endOK = TRUE /\ prioOK = TRUE
 
 -----------------------------------------------------------------------------
@@ -382,6 +389,12 @@ StartPacket(w, p) ==      \* GCWorker::run:242-257, do_work_with_stat (work.rs:3
   /\ pc' = [pc EXCEPT ![w] = "run"] /\ cur' = [cur EXCEPT ![w] = p]
   /\ todo' = [todo EXCEPT ![w] = Prog(p)]
   /\ nStarted' = nStarted + 1 /\ UNCHANGED <<nAdded, nEnded>>
+  \* C13: a sentinel packet (VMProcessWeakRefs) starts only after the closure before it is
+  \* complete: no packet of its stage or an earlier STW stage is queued, local or running
+  /\ sentOK' = (sentOK /\ (p.k = "Sent" =>
+                  /\ \A b \in FirstSTW..p.b : q[b] (+) pq[b] \sqsubseteq One(p)
+                  /\ \A v \in Workers : loc[v] = EmptyBag /\ des[v] = EmptyBag
+                                        /\ (pc[v] = "run" => cur[v].b \notin FirstSTW..p.b)))
 
 TakeDesignated(w, p) ==   \* designated_work.pop (worker.rs:199, scheduler.rs:371)
   /\ Alive /\ pc[w] = "poll" /\ BagIn(p, des[w])
@@ -469,7 +482,7 @@ LastParkedIdle(w, g) ==
   /\ nAdded' = nAdded + (IF g = "Gc" THEN 1 ELSE 0)
   /\ cbOK' = (cbOK /\ OthersWaiting(w))
   /\ UNCHANGED <<cur, todo, lvars, pq, sentinel, bvars, mvars, fvars, spur, mutAdds, reqCount,
-                 forkCount, finished, panic, nStarted, nEnded, openOK, endOK>>
+                 forkCount, finished, panic, nStarted, nEnded, sentOK, openOK, endOK>>
 
 \* Assertions at the head of the Gc branch of on_last_parked (scheduler.rs:455-464) and the
 \* panic of the exit branch (:489).
@@ -508,7 +521,7 @@ LastParkedFindMore(w, why) ==
   /\ pc' = [pc EXCEPT ![w] = "poll"]                   \* dec_parked_workers :225, Ok(())
   /\ cbOK' = (cbOK /\ OthersWaiting(w))
   /\ UNCHANGED <<cur, todo, lvars, pq, enabled, parked, gvars, mvars, fvars, bounds, panic,
-                 nStarted, nEnded, endOK, prioOK>>
+                 nStarted, nEnded, sentOK, endOK, prioOK>>
 
 \* Last parked worker during a GC, nothing more: on_gc_finished (scheduler.rs:561-637):
 \* close all STW buckets, schedule_concurrent_packets (:670), resume_mutators; then
@@ -533,7 +546,7 @@ LastParkedFinish(w, conc, g) ==
                                                 /\ pc[v] # "run"
                           /\ nStarted = nEnded /\ nAdded = nEnded + InFlight)
        /\ cbOK' = (cbOK /\ OthersWaiting(w))
-       /\ nStarted' = 0 /\ nEnded' = 0
+       /\ nStarted' = 0 /\ nEnded' = 0 /\ UNCHANGED sentOK
        /\ IF conc
           THEN /\ g = "None" /\ goal' = "None" /\ NotifyAll      \* WakeAll :481
                /\ pc' = [pc EXCEPT ![w] = "poll"] /\ nAdded' = InFlight
@@ -564,7 +577,7 @@ Consume(w, s, extra) ==
   /\ budget' = IF todo[w] = <<>> /\ ~FreePrograms THEN budget - 1 ELSE budget
 Running1(w) == Alive /\ pc[w] = "run"
 RunFrame == UNCHANGED <<pc, cur, parked, gvars, fvars, spur, mutAdds, reqCount, forkCount,
-                        finished, panic, nStarted, nEnded, flags>>
+                        finished, panic, nStarted, nEnded, sentOK, flags>>
 
 \* queue.push / prioritized_queue.push
 RunPush(w, b, c, prio) ==
@@ -624,9 +637,11 @@ RunDesignated(w, v) ==
 RunSetSentinel(w, b, c) ==
   /\ Running1(w)
   /\ \E s \in Seqs(w) : Head(s) = Op("sent", b, c, FALSE) /\ Consume(w, s, <<>>)
-  /\ sentinel' = [sentinel EXCEPT ![b] = c]
-  /\ nAdded' = IF sentinel[b] = NoPkt THEN nAdded + 1 ELSE nAdded   \* an old one is dropped
-  /\ RunFrame /\ UNCHANGED <<lvars, q, pq, bvars, cvars, mvars>>
+  /\ IF Mutant = "SentinelEager" /\ open[b]
+     THEN q' = [q EXCEPT ![b] = @ (+) One(c)] /\ nAdded' = nAdded + 1 /\ UNCHANGED sentinel
+     ELSE /\ sentinel' = [sentinel EXCEPT ![b] = c] /\ UNCHANGED q
+          /\ nAdded' = IF sentinel[b] = NoPkt THEN nAdded + 1 ELSE nAdded   \* an old one is dropped
+  /\ RunFrame /\ UNCHANGED <<lvars, pq, bvars, cvars, mvars>>
 
 \* WorkBucket::set_enabled
 RunSetEnabled(w, b, v) ==
@@ -666,7 +681,7 @@ RunEnd(w) ==
   /\ pc' = [pc EXCEPT ![w] = "poll"] /\ cur' = [cur EXCEPT ![w] = NoPkt]
   /\ nEnded' = nEnded + 1
   /\ UNCHANGED <<todo, lvars, qvars, bvars, parked, cvars, gvars, mvars, fvars, bounds, panic,
-                 nAdded, nStarted, flags>>
+                 nAdded, nStarted, sentOK, flags>>
 
 -----------------------------------------------------------------------------
 (* Worker exit (worker.rs:242-266,417; scheduler.rs:112; worker_monitor.rs:245) *)
@@ -720,7 +735,8 @@ MutAddPush(m, b) ==
   /\ q' = [q EXCEPT ![b] = @ (+) One(Pkt("Gen", b, 0))] /\ nAdded' = nAdded + 1
   /\ mpc' = [mpc EXCEPT ![m] = <<"add2", b>>] /\ mutAdds' = mutAdds + 1
   /\ UNCHANGED <<wvars, lvars, pq, sentinel, bvars, parked, cvars, gvars, flag, world, fvars,
-                 spur, budget, reqCount, forkCount, finished, panic, nStarted, nEnded, flags>>
+                 spur, budget, reqCount, forkCount, finished, panic, nStarted, nEnded, sentOK,
+                 flags>>
 
 MutAddNotify(m, v) ==
   /\ Alive /\ mpc[m][1] = "add2"
@@ -910,6 +926,9 @@ PacketConservation == nAdded = nEnded + InFlight + Running /\ nStarted = nEnded 
 PacketExactlyOnce == endOK
 \* a packet only runs while its bucket is open (designated packets have no bucket)
 RunOnlyOpen == \A w \in Workers : pc[w] = "run" /\ cur[w].b # 0 => open[cur[w].b]
+
+\* ---- C13 (scheduler part) ----
+SentinelAfterClosure == sentOK
 
 \* ---- C11 (scheduler part) ----
 \* STW packets run only between stop_all_mutators and resume_mutators
